@@ -72,7 +72,7 @@ CHECKS["C16"] = dict(
 )
 CHECKS["C18"] = dict(
     engine="symex", category="other",
-    text="Bounded symbolic verification of the real get_year, guess_edition, Edition.includes_year and disambiguate_reporters source with symbolic years, edition date ranges (or None) and clock: the guess is a candidate, is made iff there is one candidate or a year singles one out, the numeric year is in [1600, bound] and equals the text, disambiguation keeps exactly the non-resource or guessed citations in order; the year-assignment sites and the remove_ambiguous tail are folded in from the extraction and filter harnesses.",
+    text="Bounded symbolic verification of the real get_year, guess_edition, Edition.includes_year and disambiguate_reporters source with symbolic years, edition date ranges (or None) and clock: the guess is a candidate, is made iff there is one candidate or a year singles one out, the numeric year is in [1600, bound] and equals the text (also decided on year *text*: get_year on every string of <= 4/5 arbitrary characters never raises, returns only in-range years, and four decimal digits of any script give their value), disambiguation keeps exactly the non-resource or guessed citations in order; the year-assignment sites and the remove_ambiguous tail are folded in from the extraction and filter harnesses.",
     note="Bounds: <=3 (quick) / <=4 (thorough) candidate editions, <=3/4 citations. Stubs: datetime.now().year and helpers._highest_valid_year symbolic. Parallel citations: is_parallel_citation keeps 'numeric year == value of the textual year, in range' (pre-state invariant assumed for both citations). Outside: which edition a year inherited from a parallel citation selects.",
     technique=SYMEX, design_ref="DESIGN.md section 3, C18",
 )
